@@ -190,6 +190,8 @@ func (r *runner) run(ctx context.Context, isStream bool, input any, opts ...Opti
 			if err != nil {
 				return nil, newGraphRunError(fmt.Errorf("restore tasks fail: %w", err))
 			}
+			// the checkpoint has been consumed by the restored tasks: later executions of a node start fresh
+			ctx = setCheckPointToCtx(ctx, nil)
 		}
 	} else if checkPointID != nil {
 		cp, err := getCheckPointFromStore(ctx, *checkPointID, r.checkPointer)
@@ -226,6 +228,8 @@ func (r *runner) run(ctx context.Context, isStream bool, input any, opts ...Opti
 			if err != nil {
 				return nil, newGraphRunError(fmt.Errorf("restore tasks fail: %w", err))
 			}
+			// the checkpoint has been consumed by the restored tasks: later executions of a node start fresh
+			ctx = setCheckPointToCtx(ctx, nil)
 		}
 	}
 	if !initialized {
